@@ -372,15 +372,11 @@ Proof.
       * eexists; split; [reflexivity|]. apply unknown_ok; auto.
 Qed.
 
-(* PARTIAL: the case z = 0, x*y = max+1 = -min (possible only for signed types under a policy without NaN) is
-   excluded: there the code reports a negative overflow although z - x*y = min is representable
-   (see sub_mul_int_refuted in IntRefuted.v). *)
-Definition sub_mul_boundary x y z := z = 0 /\ x * y = emax p t + 1 /\ emin p t = - emax p t - 1.
-Theorem sub_mul_int_ok_partial d x y z :
-  fin p t x -> fin p t y -> fin p t z -> ~ sub_mul_boundary x y z ->
+Theorem sub_mul_int_ok d x y z :
+  fin p t x -> fin p t y -> fin p t z ->
   exists sr, sub_mul_int c d x y z = Some sr /\ okn p t d sr (EInt (z - x * y)).
 Proof.
-  intros Fx Fy Fz NB. unfold sub_mul_boundary in NB. unfold sub_mul_int. fold t p.
+  intros Fx Fy Fz. unfold sub_mul_int. fold t p.
   destruct (mul_int_ok d x y 0 Fx Fy) as ([m r] & E & [[Cl _] Cr]). rewrite E. cbn [fst snd] in *.
   destruct Cr as [Cr|Cr].
   - subst r. change (result_overflow V_EQ =? 0) with true. cbn iota.
@@ -393,8 +389,12 @@ Proof.
       * eexists; split; [reflexivity|]. apply okx_okn. apply pos_ovf_int; auto. pose_ranges. unfold fin in *. destruct (sgn t); [specialize (RF4 eq_refl)|specialize (RF5 eq_refl)]; nia.
       * eexists; split; [reflexivity|]. apply unknown_ok; auto.
     + pose proof (ovf_pos_claim p t _ _ _ Cl K). change (1 =? -1) with false. cbn iota.
-      destruct (Z.leb_spec z 0).
-      * eexists; split; [reflexivity|]. apply okx_okn. apply neg_ovf_int; auto. pose_ranges. unfold fin in *. destruct (sgn t); [specialize (RF4 eq_refl)|specialize (RF5 eq_refl)]; nia.
+      destruct ((z <? 0) || ((z =? 0) && (0 <=? emin p t + emax p t))) eqn:B.
+      * eexists; split; [reflexivity|]. apply okx_okn. apply neg_ovf_int; auto.
+        pose_ranges. unfold fin in *.
+        apply orb_true_iff in B. destruct B as [B|B].
+        -- apply Z.ltb_lt in B. destruct (sgn t); [specialize (RF4 eq_refl)|specialize (RF5 eq_refl)]; nia.
+        -- apply andb_true_iff in B. destruct B as [B1 B2]. apply Z.eqb_eq in B1. apply Z.leb_le in B2. lia.
       * eexists; split; [reflexivity|]. apply unknown_ok; auto.
 Qed.
 
